@@ -27,7 +27,9 @@ def _run(c, prop):
     nt = 150 if quick else 1500
     tr = c.harness(binp, 'trace', {'n': nt, 'ops': 22, 'ticks': 6}, timeout=300)
     c.absorb(tr)
-    traces = [t for t in tr['extra']['traces'] if t]
+    indexed = [(i, t) for i, t in enumerate(tr['extra']['traces']) if t]
+    traces = [t for _, t in indexed]
+    index_of = {id(t): i for i, t in indexed}
     accepted = 0
     remaining = list(traces)
     for _round in range(12):
@@ -50,6 +52,18 @@ def _run(c, prop):
         ok1, info1 = c.validate_trace('MemBroker', 'MemBrokerTrace', 'trace.cfg', t, timeout=300)
         if ok1:
             raise vf.Inconclusive('batch trace rejected but the single trace is accepted: %s' % info)
+        # real time is involved: the same driver (same seed, same operations) is executed again alone; a rejection
+        # must reproduce, otherwise it was a sweeper/goroutine delayed by machine load
+        ti = index_of[id(t)]
+        tr2 = c.harness(binp, 'trace', {'n': nt, 'ops': 22, 'ticks': 6, 'only': [ti]}, timeout=300)
+        t2 = tr2['extra']['traces'][ti]
+        if t2:
+            ok2, _ = c.validate_trace('MemBroker', 'MemBrokerTrace', 'trace.cfg', t2, timeout=300)
+            if ok2:
+                c.cov['unreproduced_trace_rejections'] = c.cov.get('unreproduced_trace_rejections', 0) + 1
+                accepted += bad_i
+                remaining = remaining[bad_i + 1:]
+                continue
         k = info1.get('matched_prefix', 0)
         ev = t[k] if k < len(t) else None
         p = 'C17'
